@@ -6,6 +6,7 @@ import copy
 import datetime
 import itertools
 import json
+import os
 import sys
 import types
 
@@ -147,16 +148,18 @@ def strategy_corr(ctx: vlib.Ctx):
         A = type("A", (Dialect,), {"serialization_strategy": ca})
         B = type("B", (Dialect,), {"serialization_strategy": cb})
         ea, eb = enc(ca), enc(cb)          # number the inputs first
-        snapshot = copy.deepcopy({t: (list(v) if isinstance(v, dict) else "S") for t, v in ca.items()})
+        snap = lambda m: {t: ([(k, id(f)) for k, f in v.items()] if isinstance(v, dict) else id(v)) for t, v in m.items()}  # noqa: E731
+        snapshot = (snap(ca), snap(cb))
         M = A.merge(B)
         em = enc(M.serialization_strategy)
         cases.append(f"({ea}, {eb}, {em})")
         descr.append(f"{ea} + {eb}")
         # merge must not mutate its inputs (dict values of cls are copied)
-        after = {t: (list(v) if isinstance(v, dict) else "S") for t, v in ca.items()}
+        after = (snap(ca), snap(cb))
         ctx.count(("strat", ea, eb))
         if after != snapshot:
-            ctx.fail("Dialect.merge mutates the strategy map of the receiving dialect",
+            ctx.fail("Dialect.merge mutates the strategy map of one of its arguments (a later codec built from the same "
+                     "format dialect would inherit this user's strategies)",
                      {"entry": "merge-mutation", "cls_map": ea, "other_map": eb}, {"kind": "merge-mutates-input"})
     bad, log = vlib.coq_bad_idx("c13_strat", "DialectMerge", "", "Open Scope nat_scope.\n", cases,
                                 "fun c => smap_eqb (merge_strategies (fst (fst c)) (snd (fst c))) (snd c)",
@@ -186,6 +189,13 @@ def gen_spec(r) -> dict:
         s["int"] = r.choice([None, None, "dict", "strat"])
         s["str"] = r.random() < 0.3
         dialects[str(i)] = s
+    base = None
+    if r.random() < 0.25:
+        # the classes have a default dialect of their own: a dialect that says no more than dialect j
+        j = r.randint(1, k)
+        b = {o: (v if r.random() < 0.6 else (None if o != "str" else False)) for o, v in dialects[str(j)].items()}
+        base = k + 1
+        dialects[str(base)] = b
     flags = ["dialect"]
     if r.random() < 0.2:
         flags += r.choice([["omit_none"], ["by_alias"], ["omit_none", "by_alias"]])
@@ -214,7 +224,26 @@ def gen_spec(r) -> dict:
     }
     if any(kd == "inner" for f, kd in classes["C"]["fields"]):
         pass
-    return {"dialects": dialects, "classes": classes, "order": ["Inner", "P", "C", "G", "S"], "flags": flags}
+    return {"dialects": dialects, "classes": classes, "order": ["Inner", "P", "C", "G", "S"], "flags": flags,
+            "base_dialect": base}
+
+
+def covers(spec: dict, di) -> bool:
+    """Does the call dialect say something wherever the classes' own default dialect does (DialectTwin.covers)?
+    Only then is `dialect=D` comparable with the twin whose default dialect is D: a call dialect is layered
+    over Config.dialect, it does not replace it."""
+    b = spec.get("base_dialect")
+    if b is None:
+        return True
+    if di is None:
+        return True                      # plain call: the twin is the family itself
+    bs, ds = spec["dialects"][str(b)], spec["dialects"][str(di)]
+    for o, v in bs.items():
+        if v not in (None, False) or (v is False and o != "str"):
+            dv = ds.get(o)
+            if dv is None or (o == "str" and not dv):
+                return False
+    return True
 
 
 def gen_vals(r, fam: F.Family, cname: str) -> dict:
@@ -231,7 +260,7 @@ def gen_vals(r, fam: F.Family, cname: str) -> dict:
 
 
 def gen_history(r, spec: dict, n_ops: int) -> list:
-    k = len(spec["dialects"])
+    k = len(spec["dialects"]) - (1 if spec.get("base_dialect") is not None else 0)   # the classes' own default dialect is not passed to calls
     ops = [["define", "Inner"], ["define", "P"]]
     defined = ["P"]
     pending = ["C", "S"]
@@ -292,11 +321,11 @@ def decode_from(res):
     return (CID[name], vals.pop())
 
 
-def coq_tag(t):
+def coq_tag(t, base=None):
     if t is None:
         return "None"
     c, m = t
-    return f"Some ({c}, {'None' if m == 0 else f'Some {m}'})"
+    return f"Some ({c}, {'None' if m == (base or 0) else f'Some {m}'})"
 
 
 def coq_op(o):
@@ -315,6 +344,7 @@ class HistoryRun:
         self.model = {"to": ([], []), "from": ([], [])}     # direction -> (ops, expected outs)
         self.mismatch = None
         self.stats = []
+        self.uncovered = 0
 
     def twin(self, key):
         if key not in self.twins:
@@ -354,7 +384,19 @@ class HistoryRun:
                 ok = (got == exp and gid == eid)
                 observed, expected = [got, gid], [exp, eid]
             else:
-                _, _, doc = F.call_to_dict(tw, c, vals, None)      # a document of dialect di
+                if covers(self.spec, di):
+                    _, _, doc = F.call_to_dict(tw, c, vals, None)      # a document of dialect di
+                else:
+                    # the call dialect is layered over the classes' own default dialect: the matching document is
+                    # the one the family itself writes (one more to_dict call in the history)
+                    _, _, doc = F.call_to_dict(fam, c, vals, di)
+                    tops, touts = self.model["to"]
+                    tops.append(["call", CID[c], di])
+                    touts.append(decode_to(doc))
+                    if inner_f and isinstance(doc, dict):
+                        nested = [v for v in doc.values() if isinstance(v, dict) and "t_Inner" in v]
+                        tops.append(["call", CID["Inner"], di])
+                        touts.append(decode_to(nested[0]) if nested else None)
                 got, res = F.call_from_dict(fam, c, doc, di)
                 exp, _ = F.call_from_dict(tw, c, doc, None)
                 mops.append(["call", CID[c], di])
@@ -367,6 +409,9 @@ class HistoryRun:
                 ok = got == exp
                 observed, expected = got, exp
             self.stats.append((c, direction, di))
+            if not covers(self.spec, di):
+                self.uncovered += 1
+                continue
             if not ok and self.mismatch is None:
                 self.mismatch = {"index": idx, "op": [c, direction, di, vals], "observed": observed, "expected": expected}
                 break
@@ -379,7 +424,7 @@ class HistoryRun:
             ks = F.own_cache_keys(self.fam, name, direction)
             keys.append("None" if ks is None else "Some [" + "; ".join(map(str, ks)) + "]")
         return (f"({HIER}, [0; 1; 2; 3; 4], [" + "; ".join(coq_op(o) for o in mops) + "], (["
-                + "; ".join(coq_tag(t) for t in mouts) + "], [" + "; ".join(keys) + "]))")
+                + "; ".join(coq_tag(t, self.spec.get("base_dialect")) for t in mouts) + "], [" + "; ".join(keys) + "]))")
 
 
 def classify_history_failure(hr: HistoryRun, mm: dict) -> dict:
@@ -395,6 +440,9 @@ def classify_history_failure(hr: HistoryRun, mm: dict) -> dict:
         if "by_alias" in flags and dspec.get("serialize_by_alias") is not None:
             drop.append("serialize_by_alias")
         if drop:
+            # the keyword default that the default method forwards comes from the classes' own default dialect, if any
+            bspec = hr.spec["dialects"].get(str(hr.spec.get("base_dialect")), {})
+            drop = [(o, bspec.get(o)) for o in drop]
             # the difference must be confined to those projections: the real result equals the twin
             # whose default dialect is D without the options steered by keyword flags
             tw2 = hr.twin(("mod", di, tuple(drop)))
@@ -420,6 +468,9 @@ def history_part(ctx: vlib.Ctx):
                 ctx.hist("history_calls", f"{direction}:{'none' if di is None else 'dialect'}")
                 ctx.hist("history_class", c)
             ctx.hist("family_flags", "+".join(spec["flags"]))
+            ctx.hist("family_default_dialect", "own Config.dialect" if spec.get("base_dialect") else "none")
+            if hr.uncovered:
+                ctx.hist("history_calls", "skipped:call-dialect-does-not-cover-Config.dialect", hr.uncovered)
             if mm is not None:
                 sig = classify_history_failure(hr, mm)
                 upto = [list(o) for o in ops[:mm["index"] + 1]]
@@ -432,7 +483,7 @@ def history_part(ctx: vlib.Ctx):
             else:
                 for d in ("to", "from"):
                     cases.append(hr.cache_case(d))
-                    descr.append((h, d))
+                    descr.append({"direction": d, "spec": spec, "ops": [list(o) for o in ops]})
                 if h < 2:
                     ctx.sample({"history": [o[:4] for o in ops], "dialects": spec["dialects"]})
         finally:
@@ -445,9 +496,11 @@ def history_part(ctx: vlib.Ctx):
         ctx.not_shown("correspondence " + name, log)
     else:
         ctx.correspondence(name, len(cases), len(bad), "; ".join(cases[i][:400] for i in bad[:2]))
+        if bad and os.environ.get("C13_DEBUG"):
+            print(json.dumps(descr[bad[0]], default=str), file=sys.stderr)
         if bad:
             ctx.not_shown("correspondence " + name, f"{len(bad)} histories: model and /repo disagree on which (class, dialect) "
-                          f"method served a call or on the contents of the own caches, e.g. {cases[bad[0]][:1500]}")
+                          f"method served a call or on the contents of the own caches, e.g. {cases[bad[0]][:1500]} || {json.dumps(descr[bad[0]], default=str)[:6000]}")
     ctx.notes.append(f"histories: {n_hist}, call-dialect-vs-flag-defaults reproduced {kf_hits}x")
 
 
